@@ -43,6 +43,7 @@ class Sched:
         self.version = 0         # bumped by doubles whenever shared state changes (livelock rule)
         self.result = None
         self.blocked = []
+        self.blocked_stacks = {}
         self.started = False
 
     # ------------------------------------------------------------------ participant side
@@ -137,6 +138,7 @@ class Sched:
             if not runnable:
                 self.result = self.DEADLOCK
                 self.blocked = [(p.name, p.blocked_on) for p in live]
+                self.blocked_stacks = self._stacks(live)
                 break
             if self.steps >= self.max_steps:
                 self.result = self.STEPS
@@ -152,6 +154,19 @@ class Sched:
             self.back.acquire()
         self._abort_rest()
         return self.result
+
+    def _stacks(self, parts):
+        """Where each blocked participant is (innermost frames of the code under test), for the violation report."""
+        import sys, traceback
+        frames = sys._current_frames()
+        out = {}
+        for p in parts:
+            f = frames.get(p.thread.ident)
+            if f is not None:
+                st = [f"{fs.filename.split('/')[-1]}:{fs.lineno} {fs.name}" for fs in traceback.extract_stack(f)
+                      if "sched.py" not in fs.filename and "threading.py" not in fs.filename]
+                out[p.name] = st[-6:]
+        return out
 
     def _abort_rest(self):
         self.aborted = True
